@@ -61,6 +61,7 @@ def run(F, R, tier):
             R.ob("justified-site-stale", k, False, "tables/justified_sites.json names a site that no longer exists")
 
     who_calls(F, R, A)
+    emission_link(F, R)
     # print!/eprint! panic when the descriptor fails ("failed printing to stdout"): every remaining use in run-time code
     from .lib import mir as M
     for p in fns:
@@ -70,6 +71,49 @@ def run(F, R, tier):
         if n:
             R.ob("print-macro-on-failing-stream", p, False,
                  "%d print!/eprint!-family call(s): they panic when stdout/stderr reports an error" % n, F.loc(F.fns[p]))
+
+
+def emission_link(F, R):
+    """Linked rule instances of the emission verifier (C07's engine) that the stack-discipline justifications of VM::run
+    rest on: no emitted instruction consumes operands its construct did not push, and ReturnValue/Return are emitted in
+    function scopes only."""
+    from .lib import e5run
+    from .lib.vmeffects import Lin, lmin
+    res = e5run.analyse(F, R)
+    if not res.get("ok"):
+        R.ob("emission-link", "the emission verifier could interpret the compiler", False, "unsupported construct: %s" % res.get("unsupported"))
+        return
+    g = F.fn("compiler::Compiler::compile_statement")
+    seen = set()
+    for v in res["viol"]:
+        rule, key, detail, line, facts = v
+        if rule in ("return-guard", "operand-underflow", "function-ends-with-return", "opcode-effect") and (rule, key) not in seen:
+            seen.add((rule, key))
+            R.ob(rule, key, False, detail, "src/compiler/mod.rs:%s" % line if line else "")
+    for ctx in ("main", "filter"):
+        r = res["stmt"].get(("Return", ctx))
+        oks = [s for t, s in r["ends"] if t == "ok"] if r else None
+        R.ob("return-guard", "return in the %s scope is rejected by the compiler" % ("top-level" if ctx == "main" else "filter"), oks == [],
+             "%s accepting paths" % (len(oks) if oks is not None else "?"), F.loc(g) if g else "")
+    n = 0
+    bad = []
+    for table, floors in ((res["stmt"], None), (res["expr"], e5run.CLASS_FLOOR)):
+        for (var, ctx), r in table.items():
+            for t, s in r["ends"]:
+                if t != "ok":
+                    continue
+                n += 1
+                if floors is None:
+                    fl = Lin(0)
+                else:
+                    cls = e5run.expected_class(var, e5run.access_of(s, r["pname"], var), e5run.left_of(s, r["pname"], var) if var == "Assign" else None)
+                    if cls is None:
+                        continue
+                    fl = Lin(floors[cls])
+                if not (lmin(s.minh, fl) == fl):
+                    bad.append("%s[%s] reaches %s" % (var, ctx, s.minh))
+    R.ob("emission-link", "no emitted instruction consumes operands below what its construct was given (all statement and expression arms)", not bad and n > 500,
+         "%d paths; violations: %s" % (n, bad[:3]))
 
 
 def who_calls(F, R, A):
